@@ -31,9 +31,9 @@ theorem runW_reach {τ : Type} [DecidableEq τ] (idsOf : Nat → List τ) (st0 :
 def exIds : Nat → List Nat := fun _ => [10, 11, 12]
 
 def exSteps : List Step :=
-  [.main 0 .none, .main 0 (.collect [] false), .recv 0, .ctl 0 false, .recv 0, .recv 0,
+  [.main 0 .none, .main 0 (.collect [] false false none), .recv 0, .ctl 0 false, .recv 0, .recv 0,
    .ctl 0 false, .deliver 0, .main 0 .none, .main 0 .none, .main 0 .none, .crash 0 false,
-   .recv 0, .ctl 0 false, .recv 0, .ctl 0 false, .main 1 .none, .main 1 (.collect [] false),
+   .recv 0, .ctl 0 false, .recv 0, .ctl 0 false, .main 1 .none, .main 1 (.collect [] false false none),
    .recv 1, .ctl 1 false, .recv 1, .recv 1, .ctl 1 false, .deliver 1,
    .main 1 .none, .main 1 .none, .main 1 .none, .main 1 (.reports [false, false, false] none none false), .main 1 (.complete false), .recv 1,
    .recv 1, .recv 1, .ctl 1 false, .recv 1, .ctl 1 false, .ctl 1 false,
